@@ -506,6 +506,77 @@ def gen_groups(rng, tier):
         yield {"group": q, "refs": refs, "words": words, "types": types, "config": cfg}
 
 
+def oracle_gschema(a):
+    """schemas with named groups (nested references, several references with their own occurrence ranges)
+    and xs:all: documents valid for the type of r<i> parse into R<i> under strict settings and come back
+    with the same children"""
+    from lxml import etree
+    from xsdata.formats.dataclass.context import XmlContext
+    from xsdata.formats.dataclass.parsers import XmlParser
+    from xsdata.formats.dataclass.parsers.config import ParserConfig
+    from xsdata.formats.dataclass.serializers import XmlSerializer
+
+    sch, types = a["schema"], a.get("types")
+    xsd = G.gschema_xsd(sch, types=types, defs_last=bool(a.get("defs_last")))
+    try:
+        schema = etree.XMLSchema(etree.fromstring(xsd.encode()))
+    except etree.XMLSchemaParseError:
+        return None
+    g = CG.run_pipeline({"s.xsd": xsd}, **a.get("config", {}))
+    try:
+        if g.error is not None:
+            return f"generation failed: {type(g.error).__name__}: {g.error}"
+        ctx = XmlContext()
+        parser = XmlParser(context=ctx, config=ParserConfig(fail_on_unknown_properties=True, fail_on_unknown_attributes=True, fail_on_converter_warnings=True))
+        for i, words in enumerate(a["words"]):
+            R = g.classes()[f"R{i}"]
+            for w in words:
+                doc = G.word_doc(w, types=types, root=f"r{i}")
+                if not schema.validate(etree.fromstring(doc.encode())):
+                    continue
+                try:
+                    obj = parser.from_string(doc, R)
+                except Exception as e:  # noqa: BLE001
+                    return f"schema-valid document {doc} rejected (type #{i}): {type(e).__name__}: {e}"
+                out = XmlSerializer(context=ctx).render(obj)
+                got = [(etree.QName(c).localname, c.text) for c in etree.fromstring(out.encode())]
+                if sorted(got) != sorted(zip(w, G.word_values(w, types))):
+                    return f"document {doc} re-serialised with other content (type #{i}): {out}"
+    finally:
+        g.close()
+    return None
+
+
+def gen_gschema_docs(rng, tier):
+    for sch in HAND_GROUPS:
+        yield {"schema": sch, "words": [[G.sample_gword(rng, sch, t) for _ in range(4)] for t in sch["types"]], "types": None}
+    n = 0
+    while n < n_cases(tier, 60, 100000):
+        n += 1
+        sch = G.gen_gschema(rng, valid=True, dup=rng.random() < 0.1)
+        names = {x for t in sch["types"] for x in G.gparticle_names(sch, t)}
+        types = {x: rng.choice(list(G.ELEM_TYPES)) for x in names} if rng.random() < 0.4 else None
+        if not gschema_valid(sch, types):
+            continue
+        words = [[G.sample_gword(rng, sch, t) for _ in range(4)] for t in sch["types"]]
+        cfg = {"compound_fields": True} if rng.random() < 0.3 else {}
+        yield {"schema": sch, "words": words, "types": types, "config": cfg, "defs_last": rng.random() < 0.3}
+
+
+def covered_gschema(a, msg):
+    """known finding: an element name with several sites in the expanded content model"""
+    import re
+
+    m = re.search(r"type #(\d+)", msg)
+    if not m:
+        return None
+    names = G.gparticle_names(a["schema"], a["schema"]["types"][int(m.group(1))])
+    for n in set(names):
+        if names.count(n) > 1 and (f"}}{n}" in msg or f":{n}" in msg):
+            return "C02-duplicate-name-sites"
+    return None
+
+
 def covered_groups(a, msg):
     return None  # element names are distinct inside the group: the duplicate-site finding cannot apply
 
@@ -532,6 +603,7 @@ def adapt_docs(op, a):
 ORACLES = [
     Oracle("c02.valid_docs", gen_docs, oracle_docs, covered=covered_docs, from_ops=("gen.xsd_sites", "gen.xsd_occurs"), adapt=adapt_docs),
     Oracle("c02.group_refs", gen_groups, oracle_groups, covered=covered_groups),
+    Oracle("c02.gschema_docs", gen_gschema_docs, oracle_gschema, covered=covered_gschema),
 ]
 
 
